@@ -69,7 +69,21 @@ def gen_content(rng, want_ia_on_var):
         e = ["*", ["c", rng.choice(["1/4", "1/2", "1/8", "-1/4"])], fexpr.gen_expr(rng, len(args), 1, consts=(1, "1/2"))]
         cpds = rng.sample(allv, rng.randint(1, min(2, len(allv))))
         rxns.append([f"r{i}", {"args": args, "e": e, "st": [[c, {"c": rng.choice(["1", "-1", "2", "-1/2"])}] for c in cpds]}])
-    return {"vars": vars_, "pars": pars, "derived": derived, "rxns": rxns, "surs": []}
+    surs = []
+    if rng.random() < 0.15:  # a quasi-steady-state surrogate: one plain output, one output used as a flux
+        args = [rng.choice(allv + allp) for _ in range(rng.randint(1, 2))]
+        cpd = rng.choice(allv)
+        surs.append(["s0", {"args": args, "outs": ["s0a", "s0f"],
+                            "es": [fexpr.gen_expr(rng, len(args), 1, consts=(1, "1/2")),
+                                   ["*", ["c", rng.choice(["1/4", "1/8", "-1/8"])], fexpr.gen_expr(rng, len(args), 1, consts=(1, "1/2"))]],
+                            "st": [["s0f", [[cpd, {"c": rng.choice(["1", "-1"])}]]]]}])
+    readouts = []
+    if rng.random() < 0.35:  # readouts: computed only when results are read
+        names = allv + allp + alld + [k for k, _ in rxns] + (["time"] if rng.random() < 0.2 else [])
+        for i in range(rng.randint(1, 2)):
+            args = [rng.choice(names + [k for k, _ in readouts]) for _ in range(rng.randint(1, 2))]
+            readouts.append([f"ro{i}", {"args": args, "e": fexpr.gen_expr(rng, len(args), 1, consts=(1, 2, "1/2"))}])
+    return {"vars": vars_, "pars": pars, "derived": derived, "rxns": rxns, "surs": surs, "readouts": readouts}
 
 
 def gen_relaxing(rng):
@@ -91,7 +105,26 @@ def gen_relaxing(rng):
         st = [[f"x{i}", {"c": "-1"}]] + ([[f"x{i + 1}", {"c": "1"}]] if i + 1 < n else [])
         rxns.append([f"r{i}", {"args": [f"k{i}", f"x{i}"], "e": ["*", ["a", 0], ["a", 1]], "st": st}])
     derived = [["d0", {"args": ["x0", f"x{n - 1}"], "e": ["+", ["a", 0], ["a", 1]]}]] if rng.random() < 0.4 else []
-    return {"vars": vars_, "pars": pars, "derived": derived, "rxns": rxns, "surs": []}
+    readouts = [["ro0", {"args": ["x0", rxns[-1][0]], "e": ["+", ["a", 0], ["a", 1]]}]] if rng.random() < 0.4 else []
+    return {"vars": vars_, "pars": pars, "derived": derived, "rxns": rxns, "surs": [], "readouts": readouts}
+
+
+def gen_labels(rng, nrows, positional):
+    """index labels of a scan table: default range, shuffled / sparse integers, strings, and REPEATED labels
+    (two grids joined by pd.concat without ignore_index).  Containers keyed by label (time course, protocol)
+    keep the last row of a repeated label; the steady-state container is positional and must keep every row."""
+    r = rng.random()
+    if r < 0.4:
+        return list(range(nrows))
+    if r < 0.6:
+        return rng.sample(range(100), nrows)
+    if r < 0.75:
+        return rng.sample([f"r{i}" for i in range(3 * nrows)] + ["a", "b", "wt", "ko"], nrows)
+    if r < (1.0 if positional else 0.88):
+        half = max(1, (nrows + 1) // 2)
+        base = rng.sample(range(max(10, 2 * half)), half) if rng.random() < 0.6 else rng.sample([f"g{i}" for i in range(2 * half)], half)
+        return (base + base)[:nrows]
+    return list(range(nrows))[::-1]
 
 
 def gen_relaxing_case(rng, big=False):
@@ -108,7 +141,7 @@ def gen_relaxing_case(rng, big=False):
     rows = []
     for _ in range(nrows):
         rows.append([("0" if (c == last_k and rng.random() < 0.15) else rng.choice(["1", "2", "1/2", "3/2"])) for c in cols])
-    labels = list(range(nrows)) if rng.random() < 0.6 else rng.sample(range(100), nrows)
+    labels = gen_labels(rng, nrows, True)
     case = {"content": content, "y0": None if rng.random() < 0.8 else [["x0", rng.choice(VALS)]], "cols": cols,
             "rows": [[l, r] for l, r in zip(labels, rows)], "kind": "ss", "fail_rows": [],
             "order": [rng.randrange(nrows) for _ in range(rng.randint(0, nrows))]}
@@ -146,13 +179,7 @@ def gen_case(rng, tier_thorough=False, kind=None, big=False):
     rows = [[rng.choice(VALS + ["4", "1/4"]) for _ in cols] for _ in range(nrows)]
     if nrows > 2 and rng.random() < 0.4:
         rows[rng.randrange(nrows)] = list(rows[0])  # duplicate row
-    r = rng.random()
-    if r < 0.6:
-        labels = list(range(nrows))
-    elif r < 0.92 or kind == "ss":
-        labels = rng.sample(range(100), nrows)
-    else:
-        labels = [rng.randrange(max(1, nrows - 1)) for _ in range(nrows)]  # duplicate labels: dict(res) collapses
+    labels = gen_labels(rng, nrows, kind == "ss")
     y0 = None
     if rng.random() < 0.25:
         y0 = [[k, rng.choice(VALS)] for k in rng.sample(vnames, rng.randint(1, len(vnames)))]
@@ -201,6 +228,10 @@ def gen_mcscan(rng):
         if extra not in cols:
             cols.append(extra)
     case["inner"] = {"cols": cols, "rows": [[rng.choice(VALS) for _ in cols] for _ in range(rng.randint(2, 4))]}
+    case["inner"]["labels"] = gen_labels(rng, len(case["inner"]["rows"]), True)  # the inner scan is positional
+    labs = gen_labels(rng, len(case["rows"]), False)
+    if len(set(labs)) == len(labs):  # Monte-Carlo samples are keyed by label
+        case["rows"] = [[l, r] for l, (_, r) in zip(labs, case["rows"])]
     return case
 
 
@@ -241,7 +272,10 @@ def state_degree(content):
     deg = {k: 1 for k, _ in content["vars"]}
     for k, d in content["derived"]:
         deg[k] = _deg(d["e"], [deg.get(a, 0) for a in d["args"]])
-    return max([_deg(r["e"], [deg.get(a, 0) for a in r["args"]]) for _, r in content["rxns"]] + [0])
+    degs = [_deg(r["e"], [deg.get(a, 0) for a in r["args"]]) for _, r in content["rxns"]]
+    for _, sur in content.get("surs", []):
+        degs += [_deg(e, [deg.get(a, 0) for a in sur["args"]]) for e in sur["es"]]
+    return max(degs + [0])
 
 
 def euler_steps(case):
@@ -274,6 +308,10 @@ def finalize(case):
 
 
 # --------------------------------------------------------------------------- real side
+
+
+def _lab(k):
+    return k if isinstance(k, str) else int(k)
 
 
 def _frame_block(df):
@@ -363,7 +401,7 @@ def run_real(case, mode):
         else:
             v, f = res.variables, res.fluxes
             for k in dict.fromkeys(v.index.get_level_values(0)):
-                out.append([int(k), _entry(v.xs(k, level=0), f.xs(k, level=0), varnames)])
+                out.append([_lab(k), _entry(v.xs(k, level=0), f.xs(k, level=0), varnames)])
         return {"res": out, "caller": _state(m)}
     except Exception as e:  # noqa: BLE001
         return {"err": [type(e).__name__]}
@@ -372,7 +410,8 @@ def run_real(case, mode):
 def _inner_table(case):
     import pandas as pd
 
-    return pd.DataFrame([[L.fl(v) for v in r] for r in case["inner"]["rows"]], columns=case["inner"]["cols"])
+    return pd.DataFrame([[L.fl(v) for v in r] for r in case["inner"]["rows"]], columns=case["inner"]["cols"],
+                        index=case["inner"].get("labels"))
 
 
 def _rows_of(df, nan_rows=None):
@@ -381,7 +420,8 @@ def _rows_of(df, nan_rows=None):
     out = []
     for i in range(len(df)):
         idx = df.index[i]
-        key = [float(x) for x in (idx if isinstance(idx, tuple) else (idx,))]
+        key = [(x if isinstance(x, str) else float(x)) for x in (idx if isinstance(idx, tuple) else (idx,))]
+        key[0] = _lab(key[0])
         if nan_rows is not None and nan_rows[i]:
             out.append([key, sorted([str(c), "nan"] for c in df.columns)])
         else:
@@ -420,11 +460,11 @@ def run_oracle_mcscan(case):
                         kv[c] = v
                 m = L.build_model(L.with_values(case["content"], list(kv.items())))
                 r = Simulator(m, integrator=L.make_integ(case["cfg"])).simulate_to_steady_state().get_result()
-                key = [float(label)] + [L.fl(x) for x in inner]
+                key = [_lab(label)] + [L.fl(x) for x in inner]
                 if isinstance(r.value, Exception):  # no steady state: NaN row of the right shape
-                    vcols = list(m.get_variable_names()) + list(m.get_derived_variable_names())
+                    vcols, fcols = result_columns(m)
                     vs.append([key, sorted([str(c), "nan"] for c in vcols)])
-                    fs.append([key, sorted([str(c), "nan"] for c in m.get_reaction_names())])
+                    fs.append([key, sorted([str(c), "nan"] for c in fcols)])
                     continue
                 vs.append([key, sorted([str(c), float(r.value.variables.iloc[-1][c])] for c in r.value.variables.columns)])
                 fs.append([key, sorted([str(c), float(r.value.fluxes.iloc[-1][c])] for c in r.value.fluxes.columns)])
@@ -452,6 +492,18 @@ def _independent(case, i, cfg):
         s.simulate_protocol_time_course(_proto(case), np.array([L.fl(t) for t in case["tps"]], dtype=float))
     r = s.get_result()
     return m, (None if isinstance(r.value, Exception) else r.value)
+
+
+def result_columns(m):
+    """column names of `.variables` (variables, derived variables, surrogate variables, readouts) and of
+    `.fluxes` (reactions, surrogate fluxes) of any result of this model"""
+    flags = dict.fromkeys(["include_time", "include_variables", "include_parameters", "include_derived_parameters",
+                           "include_derived_variables", "include_reactions", "include_surrogate_variables",
+                           "include_surrogate_fluxes", "include_readouts"], False)
+    v = m.get_arg_names(**{**flags, "include_variables": True, "include_derived_variables": True,
+                           "include_surrogate_variables": True, "include_readouts": True})
+    f = m.get_arg_names(**{**flags, "include_reactions": True, "include_surrogate_fluxes": True})
+    return list(v), list(f)
 
 
 def success_index(case):
@@ -497,8 +549,7 @@ def run_oracle(case):
                 # not need a successful run: the time grid follows from the request (success_index),
                 # the columns from the model's names.
                 idx = pd.Index(success_index(case))
-                vcols = list(m.get_variable_names()) + list(m.get_derived_variable_names())
-                fcols = list(m.get_reaction_names())
+                vcols, fcols = result_columns(m)
                 v = pd.DataFrame(np.full((len(idx), len(vcols)), np.nan), index=idx, columns=vcols)
                 f = pd.DataFrame(np.full((len(idx), len(fcols)), np.nan), index=idx, columns=fcols)
             else:
@@ -518,7 +569,7 @@ def run_oracle(case):
             d = {}
             for (l, _), e in zip(case["rows"], per_row):
                 d[l] = e  # a container keyed by row label keeps the last row of a label
-            out = [[int(l), e] for l, e in d.items()]
+            out = [[_lab(l), e] for l, e in d.items()]
         # the caller's model: as declared, plus y0
         mc_ = L.build_model(L.with_values(case["content"], case["y0"] or []))
         return {"res": out, "caller": _state(mc_)}
@@ -529,9 +580,14 @@ def run_oracle(case):
 # --------------------------------------------------------------------------- Lean side
 
 
+def label_ids(case):
+    return {l: i for i, l in enumerate(dict.fromkeys(l for l, _ in case["rows"]))}
+
+
 def model_request(case, mode, rng_seed=0):
+    ids = label_ids(case)  # the Lean model keys results by natural numbers; only label identity matters
     req = {"op": "c09", "content": case["content"], "y0": case["y0"], "kind": case["kind"],
-           "rows": [[l, [[c, v] for c, v in zip(case["cols"], r)]] for l, r in case["rows"]],
+           "rows": [[ids[l], [[c, v] for c, v in zip(case["cols"], r)]] for l, r in case["rows"]],
            "cfg": case["cfg"], "order": case.get("order", []) + list(range(len(case["rows"])))}
     for k in ("tps", "proto", "steps"):
         if k in case:
@@ -550,7 +606,7 @@ def model_request(case, mode, rng_seed=0):
     return req
 
 
-def canon_model(resp, template):
+def canon_model(resp, template, case=None):
     """driver answer -> observation with the column selection of `template` (S's columns)"""
     if "err" in resp:
         return {"err": [resp["err"][0]]}
@@ -573,7 +629,8 @@ def canon_model(resp, template):
             e["t"] = []
             if "tf" in e:
                 e["tf"] = []
-        k = [L.qf(x) for x in key] if isinstance(key, list) else int(key)
+        back = {i: l for l, i in label_ids(case).items()} if case is not None else {}
+        k = [L.qf(x) for x in key] if isinstance(key, list) else back.get(int(key), int(key))
         out.append([k, e])
 
     def st(j):
@@ -666,6 +723,15 @@ def classify(case, mode, R, S):
     return "F-C09-2"
 
 
+def label_kind(case):
+    labs = [l for l, _ in case["rows"]]
+    if len(set(labs)) < len(labs):
+        return "replabels"
+    if any(isinstance(l, str) for l in labs):
+        return "strlabels"
+    return "rangelabels" if labs == list(range(len(labs))) else "intlabels"
+
+
 def shape(case):
     c = case["content"]
     if case["kind"] == "mcscan":
@@ -675,7 +741,8 @@ def shape(case):
     scan_var = any(col in vs for col in case["cols"])
     return (f"{case['kind']}-cols{len(case['cols'])}-rows{min(len(case['rows']), 8)}{'+' if len(case['rows']) > 8 else ''}"
             f"-ia{min(ia, 2)}-{'scanvar' if scan_var else 'scanpar'}-{'euler' if case['cfg'] else 'lsoda'}"
-            f"-fail{min(len(case.get('fail_rows', [])), 2)}{'-tol' if (case['cfg'] or {}).get('tol') else ''}")
+            f"-fail{min(len(case.get('fail_rows', [])), 2)}{'-tol' if (case['cfg'] or {}).get('tol') else ''}"
+            f"{'-readout' if c.get('readouts') else ''}{'-surrogate' if c.get('surs') else ''}{'-' + label_kind(case)}")
 
 
 def judge_case(ctx, case, modes, S, Rs, Ms):
@@ -716,7 +783,7 @@ def evaluate(ctx, cases_modes):
     answers = driver.call_batch(reqs, timeout=300.0) if reqs else []
     Ms = [[None] * len(modes) for _, modes in jobs]
     for (ci, mi), a in zip(where, answers):
-        Ms[ci][mi] = canon_model(a, outs[ci][0])
+        Ms[ci][mi] = canon_model(a, outs[ci][0], jobs[ci][0])
     return [(S, Rs, Ms[ci]) for ci, (S, Rs) in enumerate(outs)]
 
 
@@ -810,7 +877,7 @@ def replay(ctx, rp):
     for mode, R, M in zip(modes, Rs, Ms):
         print("mode", mode, "\nR =", R, "\nM =", M)
         if case["cfg"] is not None and ctx.driver_ok and "res" in S:
-            leg = canon_model(driver.call_batch([model_request(case, ["legacy"])])[0], S)
+            leg = canon_model(driver.call_batch([model_request(case, ["legacy"])])[0], S, case)
             if L.jnum(L.snap(reduce_nan(R), leg, TOL)) == L.jnum(reduce_nan(R)) and R != S:
                 print("diagnosis: R matches the shared-model (pre-fix) variant of the Lean model: every row's lazily "
                       "computed result refers to ONE model object")
